@@ -3,15 +3,26 @@ from . import common
 
 MODULE = "StorageModel.Properties.C11"
 THEOREMS = ["table_is_good", "literal_denotes", "every_string_has_literal", "distinct_strings", "no_reread",
-            "literal_lexes", "compare_matches", "eq_matches_exactly"]
+            "literal_lexes", "compare_matches", "eq_matches_exactly", "filter_matches", "filter_matches_written"]
 
 
 def _unhex(w):
     return b"" if w == "-" else bytes.fromhex(w)
 
 
+_STRUCT = {"A", "O", "N", "C", "I", "eq", "ne", "in", "nin", "contains", "ncontains", "icontains", "nicontains"}
+
+
 def nontrivial(case, impl):
     f = case.split(" ")
+    if f[0] == "m":
+        s = _unhex(f[1])
+        if any(c in s for c in b'\\"\n\t\r\f'):
+            # the operator skeleton of the filter (everything that is not a hex string), fields excluded
+            toks = f[2:f.index(".")] if "." in f else f[2:]
+            skel = " ".join(t for t in toks if t in _STRUCT)
+            return ("m", skel, s)
+        return None
     s = _unhex(f[2] if f[0] == "u" else f[3]) + (_unhex(f[5]) if f[0] in ("c", "d") else b"")
     # non-trivial: the intended string contains a character that needs escaping
     if any(c in s for c in b'\\"\n\t\r\f'):
@@ -21,6 +32,14 @@ def nontrivial(case, impl):
 
 def describe(case, impl, model, spec):
     f = case.split(" ")
+    if f[0] == "m":
+        dot = f.index(".") if "." in f else len(f)
+        return {"kind": "ast.Parse+EvalBool on a whole filter (prefix form: A and, O or, N not, C <op> <literal> <intended>, "
+                        "I <negated> <k> (<literal> <intended>)^k); one result bit per field value",
+                "intended": _unhex(f[1]).decode("utf-8", "replace"),
+                "filter": [(t if t in _STRUCT or len(t) == 1 and t != "-" else _unhex(t).decode("utf-8", "replace"))
+                           for t in f[2:dot]],
+                "fields": f[dot + 1:], "impl": impl, "model": model, "spec": spec, "case": case}
     if f[0] == "u":
         return {"kind": "ParseZqlString", "literal": _unhex(f[1]).decode("utf-8", "replace"),
                 "intended": _unhex(f[2]).decode("utf-8", "replace"), "impl": impl, "model": model, "spec": spec,
@@ -36,7 +55,7 @@ RULE = ("all strings over the 9-character alphabet {a n t \\ \" space LF TAB x} 
         "(thorough), plus random strings up to 24 characters over a wider alphabet; each as a ParseZqlString case "
         "(random per-occurrence choice of raw or escaped control character) and as an end-to-end ast.Parse + "
         "EvalBool case in a random operand position (= != in not-in contains not-contains) against the intended "
-        "string and its plausible misreadings; for every string of length <= 2 and one longer string in eight additionally a bolt-store case: one entity per (non-empty, distinct) candidate value with id = name = value, `id <op> literal` and `name <op> literal` run through Store.QueryIds (the filter text is exactly that comparison, so any shortcut the store takes before parsing is on the path), and a c case: the literal and a neighbouring literal (blanks doubled / collapsed / added at an end, case changed) queried one after the other on the SAME store object, so anything the store remembers between queries is on the path; literals also contain the keywords and punctuation of the filter language (not, in, or, and, null, true, contains, brackets, commas); non-trivial = intended string contains a character that needs "
+        "string and its plausible misreadings; for every string of length <= 2 and one longer string in eight additionally a bolt-store case: one entity per (non-empty, distinct) candidate value with id = name = value, `id <op> literal` and `name <op> literal` run through Store.QueryIds (the filter text is exactly that comparison, so any shortcut the store takes before parsing is on the path), and a c case: the literal and a neighbouring literal (blanks doubled / collapsed / added at an end, case changed) queried one after the other on the SAME store object, so anything the store remembers between queries is on the path; for one string in two an m case: a whole filter (2-4 comparisons / in-lists under and, or, not; operators drawn independently per comparison, icontains / not icontains included) whose literals come from a pool around the string (the string itself several times, its upper-case form, a prefix, a suffix, an extension), so the same token text occurs several times in one filter under different operators, evaluated on the candidate field values of every pool string; literals also contain the keywords and punctuation of the filter language (not, in, or, and, null, true, contains, brackets, commas); non-trivial = intended string contains a character that needs "
         "escaping; distinct = (kind, operator, string)")
 
 
